@@ -892,7 +892,9 @@ def check(env, wdir, scn, res, solo, refs, which):
                 targets.append(tu["output"])          # written by as, which must not run on a failed compile
             elif m["mode"] == "link":
                 targets.append(m["out"] or "a.out")   # no link without all objects
-            elif m["mode"] == "S" and tu["output"]:
+            elif (m["mode"] == "S" and tu["output"]) or (m["mode"] == "E" and m["out"]):
+                if m["mode"] == "E":
+                    tu = dict(tu, output=m["out"])    # -E -o FILE: the preprocessed text is this unit's output
                 opened = any(lab == tu["cc1"] and k == "fopen-w" for lab, k, path in st["opens"])
                 how = next((h for lab, h in st["ended"] if lab == tu["cc1"]), "")
                 io_fault = any(lab == tu["cc1"] and w.split(" ")[0] in ("write", "close") for lab, w in st["fired"])
